@@ -2,12 +2,15 @@ import TracklibVerif.Lemmas.Filter
 import TracklibVerif.Lemmas.FilterNp
 import TracklibVerif.Lemmas.FilterShort
 import TracklibVerif.Lemmas.FilterKernels
+import TracklibVerif.Lemmas.FilterAlgebraic
+import TracklibVerif.Lemmas.FilterLocal
 import Mathlib.Algebra.Order.Ring.Rat
 import Mathlib.Algebra.Field.Rat
 import Mathlib.Tactic.NormNum
 /-! # C15 — kernel smoothing is a renormalised local weighted mean
 
-Property theorems only (helpers are in `Lemmas/Filter.lean`, `FilterNp.lean`, `FilterShort.lean`, `FilterKernels.lean`, the model in
+Property theorems only (helpers are in `Lemmas/Filter.lean`, `FilterNp.lean`, `FilterShort.lean`, `FilterKernels.lean`,
+`FilterAlgebraic.lean`, `FilterLocal.lean`, the model in
 `Model/Filter.lean`). Scalars: any linearly ordered field (`ℚ`, `ℝ`); NaN is `none`. Vocabulary (defined
 in `Lemmas/Filter.lean`):
 
@@ -18,7 +21,8 @@ in `Lemmas/Filter.lean`):
   (`boundary = kernel.filterBoundary()`, `false` for a weight list); `execute` — the whole method on the
   values of the input feature; `operate` — `track.operate(Operator.FILTER, af_in, kernel, af_out)` on a
   track of named signals (kernel possibly a feature name); `operateArgs` — the argument forms of
-  `Track.operate` (output name omitted, lists of names); `filterSeq` / `filterSeqCall` / `smooth` /
+  `Track.operate` (output name omitted, lists of names); `operateAlgebraic` — the algebraic form
+  `track.operate("out = in ! w")` / `"out = in .* w"` / `"in ! w"`; `filterSeq` / `filterSeqCall` / `smooth` /
   `session` / `filterSeqRepeat` — `filter_seq` on a list of names / with its `dim` argument and the
   module-level state / `Track.smooth` / several calls in one process / several calls on the same track.
 
@@ -29,6 +33,11 @@ length: tracks shorter than the window are covered (`short_track_filtered`, `sho
 (`zero_norm_fails`, `list_zero_weights`, `list_no_sample_fails`, `window_zero_sum_fails`), a track shorter
 than the half window with copied boundaries (`short_track_index_error`, `smooth_too_short_fails`), a float
 given as kernel (`number_kernel_refused`).
+
+Floating point: the theorems above are over a linearly ordered field. `filter_local`, `filter_far_sample`,
+`execute_local` use no law of arithmetic and hold for every scalar type, the IEEE doubles of the Python included
+(`filter_local_float`): the value at an index is a function of the kernel and of the samples of its own window,
+bit for bit — what is computed from them (the rounding of the weighted mean) stays outside the theorems.
 
 Kernel functions: Uniform / Triangular / Epanechnikov (`builtin_kernels`, `builtin_kernel_windows`), Cubic /
 Spheric (`pow_kernels`, `pow_kernel_windows`; `math.pow` with an integer exponent is a product), Gaussian /
@@ -1128,5 +1137,159 @@ example : slidingWindow (cubicF (2 : ℚ)) (cubicSupport 2) 2 = .ok [0, 123/758,
 
 /-- `dim="xy"` is walked character by character -/
 example : dimNames Globals.initial (.str "xy") = some ["x", "y"] := by decide
+
+/-! ## The algebraic form `track.operate("out = in ! w")` -/
+
+/-- **T1 for the algebraic form of the filter** `track.operate("out = in ! w")` (also written `"out = in .* w"`), and
+`track.operate("in ! w")` without left-hand side (`out = none`), for two names `in`, `w` that are features or
+coordinates of a non-empty track holding no temporary (`#…`) feature, `w` without NaN and with a non-zero sum, `in`
+in the domain for the weights `w`: the call succeeds; with a left-hand side it returns nothing and `out` (a feature,
+new or not, or a coordinate `x`, `y`, `z`) holds the signal of renormalised weighted means; without one that signal is
+returned; every other signal of the track — the temporary `#0` / `#output` are gone — reads as before. -/
+theorem algebraic_is_mean (t : Sigs α) (out : Option String) (afIn name : String) (ws v : List (Option α))
+    (hk : getSig t name = some ws) (hnan : ws.any (·.isNone) = false) (hsum : (ws.filterMap id).sum ≠ 0)
+    (hv : getSig t afIn = some v) (hsize : trackSize t ≠ 0) (hin : InDomain v (ws.filterMap id) false)
+    (htmp : ∀ p ∈ t, isTemp p.1 = false) (hout : ∀ o, out = some o → isTemp o = false) :
+    ∃ t', operateAlgebraic t out afIn name =
+        .ok ((match out with | some _ => none | none => some (meanSignal v (ws.filterMap id) false)), t') ∧
+      (∀ o, out = some o → getSig t' o = some (meanSignal v (ws.filterMap id) false)) ∧
+      (∀ nm, (∀ o, out = some o → nm ≠ o) → getSig t' nm = getSig t nm) := by
+  obtain ⟨k', t1, hop, hget, hoth⟩ := operate_is_mean t afIn "#0" (.list (ws.filterMap id)) (ws.filterMap id) false
+    ⟨rfl, rfl, hsum⟩ v (by decide) hsize hv hin
+  have hfeat := feature_kernel_is_list t afIn "#0" name ws hk hnan
+  rw [hop] at hfeat
+  simp only at hfeat
+  have htempTrue : isTemp "#0" = true := by decide
+  -- reading the final track
+  have hread : ∀ (lhs nm : String), nm ≠ lhs →
+      getSig ((assignAF t1 lhs "#0" (meanSignal v (ws.filterMap id) false)).filter (fun p => !(isTemp p.1))) nm = getSig t nm := by
+    intro lhs nm hne
+    rw [getSig_dropTemp]
+    cases hT : isTemp nm with
+    | true =>
+      simp only [if_true]
+      exact (getSig_eq_none_of_forall t nm isTemp htmp hT).symm
+    | false =>
+      simp only [Bool.false_eq_true, if_false]
+      have h0 : nm ≠ "#0" := by
+        intro e; rw [e, htempTrue] at hT; cases hT
+      rw [getSig_assignAF_other _ _ _ _ _ hne h0, hoth nm h0]
+  cases out with
+  | some o =>
+    have ho : isTemp o = false := hout o rfl
+    have ho0 : o ≠ "#0" := by
+      intro e; rw [e, htempTrue] at ho; cases ho
+    refine ⟨(assignAF t1 o "#0" (meanSignal v (ws.filterMap id) false)).filter (fun p => !(isTemp p.1)), ?_, ?_, ?_⟩
+    · unfold operateAlgebraic
+      rw [hfeat]
+      rfl
+    · intro o' ho'
+      cases ho'
+      rw [getSig_dropTemp, ho]
+      simp only [Bool.false_eq_true, if_false]
+      exact getSig_assignAF_same _ _ _ _ ho0
+    · intro nm hnm
+      exact hread _ nm (hnm o rfl)
+  | none =>
+    refine ⟨(assignAF t1 "#output" "#0" (meanSignal v (ws.filterMap id) false)).filter (fun p => !(isTemp p.1)), ?_, ?_, ?_⟩
+    · unfold operateAlgebraic
+      rw [hfeat]
+      simp only [Option.getD_none]
+      rw [getSig_assignAF_same _ _ _ _ (by decide)]
+    · intro o ho; cases ho
+    · intro nm _
+      rw [getSig_dropTemp]
+      cases hT : isTemp nm with
+      | true =>
+        simp only [if_true]
+        exact (getSig_eq_none_of_forall t nm isTemp htmp hT).symm
+      | false =>
+        simp only [Bool.false_eq_true, if_false]
+        have h0 : nm ≠ "#0" := by
+          intro e; rw [e, htempTrue] at hT; cases hT
+        have h1 : nm ≠ "#output" := by
+          intro e; rw [e] at hT; revert hT; decide
+        rw [getSig_assignAF_other _ _ _ _ _ h1 h0, hoth nm h0]
+
+/-- non-vacuity: `track.operate("b = a ! w")` on a three-point track with `a = [0, 10, 0]`, `w = [1, 2, 1]` … -/
+example : operateAlgebraic (α := ℚ) [("x", [some 0, some 1, some 2]), ("a", [some 0, some 8, some 4]), ("w", [some 1, some 2, some 1])]
+    (some "b") "a" "w"
+    = .ok (none, [("x", [some 0, some 1, some 2]), ("a", [some 0, some 8, some 4]), ("w", [some 1, some 2, some 1]), ("b", [some 0, some 5, some 4])]) := by
+  simp [operateAlgebraic, operate, resolve, prepare, normalise, reservedName, trackSize, getSig, createAF, setSig, assignAF, isTemp,
+    filterWindowG, cells, inner, sample, copyBoundary, anySample, List.range, List.range.loop, List.zipIdx]
+  norm_num
+
+/-! ## Locality: an output depends on the samples of its own window only (any scalar type, IEEE doubles included) -/
+section locality
+variable {β : Type} [Add β] [Mul β] [Div β] [OfNat β 0] [BEq β]
+
+/-- **Locality (`filter_local`)** For ANY scalar type with `+`, `*`, `/`, `0` and `==` — no law of arithmetic is
+assumed, so this is also a statement about the IEEE doubles the Python computes with (`filter_local_float`), where
+the theorems over an ordered field say nothing: two signals of the same length that agree at every index at distance
+at most `D = N / 2` of `i` are given the same value at `i` by `Filter.execute` (when both calls succeed), bit for bit.
+The samples outside the window of `i` — however large — play no part in `out[i]`. -/
+theorem filter_local (v v' : List (Option β)) (k : List β) (boundary np : Bool) (i : Nat)
+    (hlen : v.length = v'.length)
+    (hnear : ∀ m, i ≤ m + k.length / 2 → m ≤ i + k.length / 2 → v[m]? = v'[m]?)
+    (out out' : List (Option β))
+    (ho : filterWindowG v k boundary np = .ok out) (ho' : filterWindowG v' k boundary np = .ok out') :
+    out[i]? = out'[i]? :=
+  filterWindowG_local v v' k boundary np i ⟨hlen, hnear⟩ out out' ho ho'
+
+/-- **A sample outside the window is not seen** Replacing the sample at an index `m` further than `D` from `i`
+by any value (`v.set m x`; a first record of another order of magnitude, a sentinel) leaves `out[i]` as it is. -/
+theorem filter_far_sample (v : List (Option β)) (k : List β) (boundary np : Bool) (i m : Nat) (x : Option β)
+    (hfar : m + k.length / 2 < i ∨ i + k.length / 2 < m) (out out' : List (Option β))
+    (ho : filterWindowG v k boundary np = .ok out) (ho' : filterWindowG (v.set m x) k boundary np = .ok out') :
+    out[i]? = out'[i]? := by
+  refine filter_local v (v.set m x) k boundary np i (by simp) ?_ out out' ho ho'
+  intro j h1 h2
+  rw [List.getElem?_set_ne (by omega)]
+
+/-- **Locality for `Filter.execute` as a whole** (weight list normalised in place / Kernel object / Dirac): the
+kernel preparation does not look at the signal, so the same holds for the method itself, `D` being the half length of
+the prepared window. -/
+theorem execute_local [Sub β] [Neg β] [LT β] [LE β] [DecidableLT β] [DecidableLE β] [OfNat β 1] [NatCast β]
+    (v v' : List (Option β)) (kern : KArg β) (i : Nat) (kp : Option (List β)) (w : List β) (b np : Bool)
+    (hprep : prepare kern = .ok (kp, w, b, np)) (hlen : v.length = v'.length)
+    (hnear : ∀ m, i ≤ m + w.length / 2 → m ≤ i + w.length / 2 → v[m]? = v'[m]?)
+    (k1 k2 : Option (List β)) (out out' : List (Option β))
+    (ho : execute v kern = .ok (k1, out)) (ho' : execute v' kern = .ok (k2, out')) :
+    out[i]? = out'[i]? := by
+  unfold execute at ho ho'
+  rw [hprep] at ho ho'
+  simp only at ho ho'
+  cases h1 : filterWindowG v w b np with
+  | error e => rw [h1] at ho; cases ho
+  | ok o1 =>
+    cases h2 : filterWindowG v' w b np with
+    | error e => rw [h2] at ho'; cases ho'
+    | ok o2 =>
+      rw [h1] at ho; rw [h2] at ho'
+      cases ho; cases ho'
+      exact filter_local v v' w b np i hlen hnear _ _ h1 h2
+end locality
+
+/-- `filter_local` at the IEEE doubles of the Lean runtime (the scalar type of the driver's float streams) -/
+theorem filter_local_float (v v' : List (Option Float)) (k : List Float) (boundary np : Bool) (i : Nat)
+    (hlen : v.length = v'.length)
+    (hnear : ∀ m, i ≤ m + k.length / 2 → m ≤ i + k.length / 2 → v[m]? = v'[m]?)
+    (out out' : List (Option Float))
+    (ho : filterWindowG v k boundary np = .ok out) (ho' : filterWindowG v' k boundary np = .ok out') :
+    out[i]? = out'[i]? :=
+  filter_local v v' k boundary np i hlen hnear out out' ho ho'
+
+/-- non-vacuity of the locality theorems: a first record of another order of magnitude followed by a constant stretch
+(`[1.7e9, 0.1, 0.1, 0.1, 0.1]`, weights `[1,2,1]/4`): the call succeeds, the windows that do not hold the first record
+return `1/10`, and so they do when the first record is `1/10` as well. -/
+example : filterWindow (α := ℚ) [some 1700000000, some (1/10), some (1/10), some (1/10), some (1/10)] [1/4, 1/2, 1/4] false
+    = .ok [some 1700000000, some (17000000003/40), some (1/10), some (1/10), some (1/10)] := by
+  simp [filterWindow, filterWindowG, cells, inner, sample, copyBoundary, List.range, List.range.loop]
+  norm_num
+
+example : filterWindow (α := ℚ) ([some 1700000000, some (1/10), some (1/10), some (1/10), some (1/10)].set 0 (some (1/10))) [1/4, 1/2, 1/4] false
+    = .ok [some (1/10), some (1/10), some (1/10), some (1/10), some (1/10)] := by
+  simp [filterWindow, filterWindowG, cells, inner, sample, copyBoundary, List.range, List.range.loop]
+  norm_num
 
 end TV.C15
